@@ -107,7 +107,7 @@ def build_job(seed, idx, sc, vi, var):
     """var: dict of variant dimensions"""
     r = gen.rng(seed, "c08", idx, "variant", vi)
     ops = []
-    proj = "proj"
+    proj = var.get("proj_name") or "proj"
     items = sorted(sc["srcs"].items())
     if var.get("write_perm"):
         r.shuffle(items)  # the order in which the files came into being (their relative mtimes) is not an input either
@@ -200,10 +200,13 @@ def build_job(seed, idx, sc, vi, var):
                     pre.append({"op": "write", "path": proj + "/" + p, "content": c})
             ops.extend(pre)
     ops.append({"op": "invoke", "cwd": cwd, "argv": argv, "build_dir": build_dir, "label": "build", "sched": sched, "final": True})
+    extra_env = dict(var.get("env") or {})
     if var.get("tz"):
+        extra_env["TZ"] = var["tz"]  # the machine's time zone is not an input (SOURCE_DATE_EPOCH is fixed)
+    if extra_env:
         for op in ops:
             if op["op"] == "invoke":
-                op["env"] = {"TZ": var["tz"]}  # the machine's time zone is not an input (SOURCE_DATE_EPOCH is fixed)
+                op["env"] = dict(extra_env)
     jid = "c08-%d-%d.v%d" % (seed, idx, vi)
     return {"id": jid, "root_id": "c08/%d/%d/v%d" % (seed, idx, vi), "hashseed": var["hashseed"], "clock_seed": H(seed, idx, vi) % (1 << 31),
             "readdir_seed": var["readdir_seed"], "keep_trace": False, "ops": ops}
@@ -213,7 +216,7 @@ def gen_case(seed, idx, pool, nvar):
     sc = gen_scenario(seed, idx)
     r = gen.rng(seed, "c08", idx, "vars")
     ref = {"hashseed": 0, "argv_perm": False, "readdir_seed": None, "cwd": "project", "build_dir": "default",
-           "glob": False, "abs_paths": False, "sched": None, "write_perm": False, "used_build_dir": False, "tz": None}
+           "glob": False, "abs_paths": False, "sched": None, "write_perm": False, "used_build_dir": False, "tz": None, "proj_name": None, "env": None}
     variants = [ref]
     for vi in range(1, nvar + 1):
         variants.append({
@@ -221,6 +224,10 @@ def gen_case(seed, idx, pool, nvar):
             "cwd": r.choice(["project", "project", "parent", "child", "sibling"]),
             "build_dir": r.choice(["default", "default", "absolute", "nested", "symlink"]),
             "glob": r.random() < 0.5, "abs_paths": r.random() < 0.3, "sched": gen.sched(r), "write_perm": r.random() < 0.5, "used_build_dir": r.random() < 0.3, "tz": r.choice([None, None, "UTC", "JST-9", "PST8PDT", "Europe/Berlin"]),
+            # where the checkout lives and what the machine / account looks like
+            "proj_name": r.choice([None, None, "p", "my project (v2)", "a" * 48, "prøjekt"]),
+            "env": r.choice([None, None, {"NSIM_CPU_COUNT": "1"}, {"NSIM_CPU_COUNT": "64", "NSIM_UMASK": "077"}, {"NSIM_UMASK": "002", "COLUMNS": "40", "NO_COLOR": "1"},
+                             {"HOME": "$ROOT/home", "USER": "someone", "LOGNAME": "someone"}, {"LANG": "C", "LC_ALL": "C"}]),
         })
     jobs = [build_job(seed, idx, sc, vi, v) for vi, v in enumerate(variants)]
     return {"id": "c08-%d-%d" % (seed, idx), "jobs": jobs,
@@ -258,7 +265,7 @@ def judge(case, results):
         return out + [{"class": "discard", "detail": {"tail": (ref.get("steps_tail") or ref.get("driver_tail") or "")[-300:]}}]
     for vi, r in enumerate(invs[1:], 1):
         v = m["variants"][vi]
-        varied = ",".join(k for k in ("hashseed", "argv_perm", "readdir_seed", "cwd", "build_dir", "glob", "abs_paths", "write_perm", "used_build_dir", "tz")
+        varied = ",".join(k for k in ("hashseed", "argv_perm", "readdir_seed", "cwd", "build_dir", "glob", "abs_paths", "write_perm", "used_build_dir", "tz", "proj_name", "env")
                           if v[k] != m["variants"][0][k]) + ",sched"
         if (r["rc"] == 0) != (ref["rc"] == 0):
             out.append({"class": "exit-status-varies", "detail": {"variant": vi, "varied": varied, "rc": [ref["rc"], r["rc"]],
